@@ -7,7 +7,7 @@ git status --short | grep -v '^??' | grep . && { echo "repo not clean"; exit 2; 
 git apply "$P" || { echo "patch does not apply"; exit 2; }
 for c in "$@"; do
   echo "=== $c"
-  (cd /verif && timeout 3000 ./vcheck $c --tier quick 2>&1 | grep -E "^VIOLATION|^  key:|^OK|^INCONCLUSIVE|^KNOWN|HARNESS" | cut -c1-260 | head -12)
+  (cd /verif && VERIF_EVIDENCE_DIR=/tmp/wt/evidence_trial timeout 3000 ./vcheck $c --tier quick 2>&1 | grep -E "^VIOLATION|^  key:|^OK|^INCONCLUSIVE|^KNOWN|HARNESS" | cut -c1-260 | head -12)
 done
 git -C /repo checkout -- .
 git -C /repo status --short | grep -v '^??'
